@@ -124,9 +124,10 @@ def run_threaded(sc):
             L = isotp.TransportLayer(mk_rx(i), mk_tx(i), core.make_address(ad), mk_err(i), params[i], read_timeout=sc['read_timeout'])
             layers.append(L)
 
-        def noise(msg):
-            q[0].put(msg)
-            q[1].put(msg)
+        def noise(msg, special=None):
+            if special is None:         # raw queues cannot carry error / remote frames
+                q[0].put(msg)
+                q[1].put(msg)
     else:
         import can
         chan = 'verif_%d_%d' % (sc['seed'], threading.get_ident())
@@ -144,9 +145,14 @@ def run_threaded(sc):
                                                 read_timeout=sc['read_timeout'])
             layers.append(L)
 
-        def noise(msg):
+        def noise(msg, special=None):
             kw = dict(arbitration_id=msg.arbitration_id, data=msg.data, is_extended_id=msg.is_extended_id, is_fd=fd and len(msg.data) > 8)
             kind_n = rng.random()
+            if special == 'error':
+                kind_n = 0.1
+            elif special == 'remote':
+                kind_n = 0.3
+                kw['is_fd'] = False
             if kind_n < 0.2:
                 kw['is_error_frame'] = True
             elif kind_n < 0.4 and not kw['is_fd']:
@@ -197,9 +203,15 @@ def run_threaded(sc):
             if ext:
                 fid = rng.randrange(1 << 29)
             m = isotp.CanMessage(arbitration_id=fid, data=bytes(rng.randrange(256) for _ in range(rng.randrange(0, 9))), extended_id=ext)
-            # never an id of the conversation
+            # never a DATA frame with an id of the conversation
             if not (ref.reception_condition(ref.half(a, 'rx'), fid, ext, m.data) or ref.reception_condition(ref.half(b, 'rx'), fid, ext, m.data)):
                 noise(m)
+            if rng.random() < 0.3:
+                # ... but error and remote frames ON the conversation's identifiers are "unrelated" traffic too and must be ignored
+                h = ref.half(rng.choice([a, b]), 'rx')
+                cid = ref.emitted_id(ref.half(b if h is ref.half(a, 'rx') else a, 'tx'))
+                m2 = isotp.CanMessage(arbitration_id=cid, data=b'', extended_id=h['mode'] in ref.MODE_29)
+                noise(m2, special=rng.choice(['error', 'remote']))
             time.sleep(0.002)
 
     threads = []
@@ -213,6 +225,13 @@ def run_threaded(sc):
     for t in threads:
         t.start()
     expected = {1: sum(len(x) for x in sc['senders'][0]), 0: sum(len(x) for x in sc['senders'][1])}
+    if sc.get('stop_midflight'):
+        # the callers are blocked in send() (the peer never answers): stop() must fail their requests and wake them up
+        time.sleep(0.25)
+        t_stop = time.time()
+        layers[0].stop()
+        for t in threads:
+            t.join(timeout=max(0.0, 3.0 - (time.time() - t_stop)))
     deadline = time.time() + 60
     while time.time() < deadline:
         for i in (0, 1):
